@@ -14,6 +14,9 @@ CHECKS = {
  "C07": dict(level="exploration", ref="DESIGN.md §5 C07",
    technique="deterministic simulation: seeded histories vs wrapping/saturating reference model; seeded thread schedules with atomics as scheduling points",
    text="Seeded search: boundary-valued operation histories against an executable reference model (sequential), and 2-8 simulated threads incrementing clones under a seeded scheduler that interleaves at every atomic operation (lost-update oracle). Sampling over histories and schedules; exact replay from a seed/schedule file."),
+ "C17": dict(level="exploration", ref="DESIGN.md §5 C17",
+   technique="deterministic simulation with fault injection: simulated reader/writer/stream with seeded short/EINTR/EAGAIN/EIO/Pending/EOF plan, call-by-call differential against an unwrapped twin + position model; seeded rayon split driver with leaves on simulated threads",
+   text="Seeded search over call sequences and fault plans on simulated I/O objects behind the adaptors' existing Read/BufRead/Write/Seek/tokio Async*/Stream/Iterator/rayon plumbing seams. Every call is compared with an unwrapped twin that follows the same seeded behaviour plan and position() with an exact transfer count. Sampling; exact replay from the scenario file."),
 }
 
 NOT_APPLICABLE = {
